@@ -99,19 +99,20 @@ def rnd_time(r, form):
 
 
 FOOTER_FORMS = ["M", "J", "N", "mixed", "neg-time", "big-time", "edge-time", "south", "neg-save", "allyear",
-                "std-only", "empty", "sec-offsets", "M", "mixed", "v1", "year-edge", "year-edge", "year-edge"]
+                "std-only", "empty", "sec-offsets", "M", "mixed", "v1", "year-edge", "year-edge", "year-edge", "near-allyear"]
 
 
-def footer_ok(p):
+def footer_ok(p, min_sep=20 * SPD):
     """Domain constraint (iv): over a 400-year cycle, rule transitions strictly alternate and are
-    >= 20 days apart (so both of year Y precede both of year Y+1)."""
+    >= 20 days apart (so both of year Y precede both of year Y+1). The near-all-year form relaxes the
+    distance to twice the size of the change (the transitions still do not cross)."""
     ev = []
     for yy in range(1999, 1999 + 402):
         ev.append((p.start_of(yy), 1))
         ev.append((p.end_of(yy), 0))
     ev.sort()
     for (a, ka), (b, kb) in zip(ev, ev[1:]):
-        if ka == kb or b - a < 20 * SPD:
+        if ka == kb or b - a < min_sep:
             return False
     return True
 
@@ -143,6 +144,12 @@ def gen_footer(r, form, used):
         if form == "allyear":
             x = 86400 + save
             footer += ",0/0,J365/" + fmt_hms(x)
+        elif form == "near-allyear":
+            # almost permanent DST: like zic's "0/0,J365/25" but with a short standard-time window at the year end
+            if save <= 0:
+                continue
+            window = r.choice([2 * save, 2 * save + 1800, 3 * save, 7200 + save, 86400])
+            footer += ",0/0,J365/" + fmt_hms(86400 + save - window)
         elif form == "year-edge":
             # one rule transition crosses the calendar-year boundary: early-January date with a negative time, or a
             # late-December date with a time beyond 24 h; the other rule sits mid-year
@@ -172,6 +179,9 @@ def gen_footer(r, form, used):
         if form == "allyear":
             if not p.allyear():
                 raise RuntimeError("not all-year: " + footer)
+        elif form == "near-allyear":
+            if p.allyear() or not footer_ok(p, min_sep=2 * save):
+                continue
         else:
             if p.allyear() or not footer_ok(p):
                 continue
@@ -407,7 +417,10 @@ def domain_ok(path):
         if not p.ok:
             return False
         if p.dst and not p.allyear() and not footer_ok(p):
-            return False
+            # the near-all-year class: standard time only in a short window at the year end
+            near = p.start == (("N", 0), 0) and p.end[0] == ("J", 365) and footer_ok(p, min_sep=2 * abs(p.dst_off - p.std_off))
+            if not near:
+                return False
         if p.dst and not p.allyear() and not z.times:
             return False
         # RFC 9636 consistency: the footer evaluated at the last transition yields that transition's type
